@@ -7,6 +7,12 @@
 // line formats (igrid = i,j,k ; value key = order-preserving int64 image of the finite double, `nf` = non-finite)
 //   LS lo | hi | src | radius = g;g;...
 //   OPT id kind max_evals sizes | batch;batch;... | ok|nonfinite|abort | steps        (batch, steps: `igrid:key igrid:key ...`)
+//   (stage SURR, exact dyadic numbers are written `n@e` = n * 2^e)
+//   OPT lines of the surrogate tuner carry two more fields: ` | t,t,..;t,t,.. (to_surrogate of every grid value per space)
+//       | n:valid:x,x,..;... (inner-solver answer min_state_opt.x() observed at the NANO_VERIF solver_t::done hook, n = evaluations so far)`
+//   SGV id d | m,m,.. | x,x,.. = size | value | g,g,..                      (quadratic_surrogate_t)
+//   SGF id d n | p,p;p,p;.. | y,y,.. | c,c,.. = size | value | g,g,.. | convex   (quadratic_surrogate_fit_t with the mse loss)
+//   MAP id lin|log exact | grid | ts | x | v = point | closest value | from_surrogate(x) | to_surrogate(v) or throw
 //   TUNE id folds | n1,n2,... | t:f t:f ...;... (observed tasks per batch, sorted) | M,M,..;... (trial x fold) | optimum
 #include "common.h"
 #include <algorithm>
@@ -21,6 +27,10 @@
 #include <nano/splitter.h>
 #include <nano/tuner.h>
 #include <nano/tuner/util.h>
+#include <nano/tuner/surrogate.h>
+#include <nano/loss.h>
+#include <nano/solver/state.h>
+#include <nano/verif.h>
 #include <set>
 #include <thread>
 
@@ -381,6 +391,341 @@ void run_ls(vh::rng_t& rng, const std::string& caseid)
     }
 }
 
+
+// ------------------------------------------------------------------------------------------------
+// stage SURR: exact dyadic output, the solver hook, direct calls of the surrogate functions and of param_space_t
+// ------------------------------------------------------------------------------------------------
+// a finite double as `n@e` (= n * 2^e, n odd or zero)
+std::string sq(const double v)
+{
+    if (!std::isfinite(v)) { return "nf"; }
+    if (v == 0.0) { return "0@0"; }
+    int        e  = 0;
+    const auto fr = std::frexp(v, &e);
+    auto       n  = static_cast<int64_t>(std::ldexp(fr, 53));
+    e -= 53;
+    while ((n % 2) == 0)
+    {
+        n /= 2;
+        ++e;
+    }
+    return std::to_string(n) + "@" + std::to_string(e);
+}
+
+template <class tvec>
+std::string sqv(const tvec& v)
+{
+    std::string s;
+    for (tensor_size_t i = 0; i < v.size(); ++i)
+    {
+        if (i) { s += ","; }
+        s += sq(v(i));
+    }
+    return s;
+}
+
+std::string sqv(const std::vector<double>& v)
+{
+    std::string s;
+    for (size_t i = 0; i < v.size(); ++i)
+    {
+        if (i) { s += ","; }
+        s += sq(v[i]);
+    }
+    return s;
+}
+
+// the inner-solver answers of one surrogate tuner run (solver_t::done exit events; the fit has more unknowns than the surrogate)
+struct answer_t
+{
+    int64_t             m_evals{0};
+    bool                m_valid{false};
+    std::vector<double> m_x;
+};
+struct recorder_t
+{
+    bool                  m_on{false};
+    tensor_size_t         m_dims{0};
+    const std::map<igr, double>* m_evaluated{nullptr};
+    bool                  m_last_is_opt{false};
+    answer_t              m_cur;
+    std::vector<answer_t> m_answers;
+
+    void flush()
+    {
+        if (m_last_is_opt) { m_answers.push_back(m_cur); }
+        m_last_is_opt = false;
+    }
+};
+recorder_t g_rec;
+
+void on_solver_event(const int kind, const void* object, const std::uint64_t, const std::uint64_t)
+{
+    if (!g_rec.m_on || kind != verif::ev_solver_exit) { return; }
+    const auto* st = static_cast<const solver_state_t*>(object);
+    if (st->x().size() == g_rec.m_dims)
+    {
+        g_rec.m_cur.m_evals = static_cast<int64_t>(g_rec.m_evaluated->size());
+        g_rec.m_cur.m_valid = st->valid();
+        g_rec.m_cur.m_x.assign(st->x().data(), st->x().data() + st->x().size());
+        g_rec.m_last_is_opt = true;
+    }
+    else { g_rec.flush(); } // an event of the next fit: the previous surrogate minimisation is over
+}
+
+// the closed form of the coefficient index of the cross term (i, j), i <= j (independent of the library's walk)
+int64_t cross_index(const int64_t d, const int64_t i, const int64_t j)
+{
+    return d + 1 + i * d - i * (i - 1) / 2 + (j - i);
+}
+
+struct surr_stats_t
+{
+    int64_t m_sgv{0}, m_sgf{0}, m_map{0}, m_map_ties{0}, m_map_log{0}, m_answers{0}, m_invalid_answers{0};
+};
+
+double dyadic(vh::rng_t& rng, const int64_t range, const double unit)
+{
+    return static_cast<double>(rng.range(-range, range)) * unit;
+}
+
+void run_sgv(vh::rng_t& rng, const std::string& caseid, surr_stats_t& stats)
+{
+    static const int64_t ds[] = {1, 2, 3, 3, 4, 4, 5, 6, 7, 3};
+    const auto           d    = ds[rng.range(0, 9)];
+    const auto           n    = (d + 1) * (d + 2) / 2;
+    const auto           mode = rng.range(0, 3); // 0: dense, 1: one cross term only, 2: one coefficient only, 3: dense small
+    vector_t             model(n);
+    for (tensor_size_t k = 0; k < n; ++k) { model(k) = (mode == 0 || mode == 3) ? dyadic(rng, mode == 0 ? 64 : 8, 0.125) : 0.0; }
+    if (mode == 1 && d >= 2)
+    {
+        const auto i = rng.range(0, d - 2);
+        const auto j = rng.range(i + 1, d - 1);
+        model(cross_index(d, i, j)) = dyadic(rng, 8, 0.5) + 0.25;
+    }
+    if (mode == 2) { model(rng.range(0, n - 1)) = 1.0; }
+    vector_t x(d);
+    for (tensor_size_t i = 0; i < d; ++i) { x(i) = dyadic(rng, 16, 0.25) + (mode == 1 ? static_cast<double>(i + 1) : 0.0); }
+
+    const auto func = quadratic_surrogate_t{model};
+    vector_t   gx(func.size());
+    const auto fx = func.size() == d ? func.vgrad(x, gx) : std::nan("");
+    ++stats.m_sgv;
+
+    std::printf("SGV %s %" PRId64 " | %s | %s = %" PRId64 " | %s | %s\n", caseid.c_str(), d, sqv(model).c_str(), sqv(x).c_str(),
+                static_cast<int64_t>(func.size()), sq(fx).c_str(), func.size() == d ? sqv(gx).c_str() : "");
+
+    const std::string id = caseid + " d=" + std::to_string(d) + " model=" + sqv(model) + " x=" + sqv(x);
+    if (func.size() != d)
+    {
+        fail("SGV-SIZE", id, "quadratic_surrogate_t of " + std::to_string(n) + " coefficients has size " + std::to_string(func.size()));
+        return;
+    }
+    // direct oracle: value = p0 + sum p_i x_i + sum_{i<=j} p_ij x_i x_j with the closed-form index (all numbers small dyadics: exact)
+    const auto value_at = [&](const vector_t& z)
+    {
+        double v = model(0);
+        for (int64_t i = 0; i < d; ++i) { v += model(1 + i) * z(i); }
+        for (int64_t i = 0; i < d; ++i)
+        {
+            for (int64_t j = i; j < d; ++j) { v += model(cross_index(d, i, j)) * z(i) * z(j); }
+        }
+        return v;
+    };
+    if (!(fx == value_at(x))) { fail("SGV-VALUE", id, "value " + vh::hexf(fx) + " differs from the polynomial " + vh::hexf(value_at(x))); }
+    // the gradient is the derivative: central differences are exact for a quadratic (f(x + h e_i) - f(x - h e_i) = 2 h g_i), on the library
+    for (int64_t i = 0; i < d; ++i)
+    {
+        auto xp = x, xm = x;
+        xp(i) += 0.5;
+        xm(i) -= 0.5;
+        const auto diff = func.vgrad(xp) - func.vgrad(xm);
+        if (!(diff == gx(i))) { fail("SGV-GRAD", id, "gradient component " + std::to_string(i) + " = " + vh::hexf(gx(i)) + " but the central difference is " + vh::hexf(diff)); }
+    }
+}
+
+void run_sgf(vh::rng_t& rng, const std::string& caseid, surr_stats_t& stats)
+{
+    static const int64_t ds[] = {1, 2, 2, 3, 3, 3, 4, 5};
+    const auto           d    = ds[rng.range(0, 7)];
+    const auto           n    = (d + 1) * (d + 2) / 2;
+    const auto           ns   = rng.range(1, 7);
+    tensor2d_t           p(ns, d);
+    tensor1d_t           y(ns);
+    for (tensor_size_t s = 0; s < ns; ++s)
+    {
+        for (tensor_size_t i = 0; i < d; ++i) { p(s, i) = dyadic(rng, 8, 0.25) + static_cast<double>(rng.range(0, 1) * (i + 1)); }
+        y(s) = dyadic(rng, 32, 0.125);
+    }
+    vector_t c(n), c2(n);
+    const auto sparse = rng.range(0, 2) == 0;
+    for (tensor_size_t k = 0; k < n; ++k)
+    {
+        c(k)  = sparse ? 0.0 : dyadic(rng, 16, 0.125);
+        c2(k) = dyadic(rng, 16, 0.125);
+    }
+    if (sparse) { c(rng.range(0, n - 1)) = 1.0; }
+
+    const auto loss = loss_t::all().get("mse");
+    const auto func = quadratic_surrogate_fit_t{*loss, p, y};
+    vector_t   gx(func.size());
+    const auto fx = func.size() == n ? func.vgrad(c, gx) : std::nan("");
+    ++stats.m_sgf;
+
+    std::string sp;
+    for (tensor_size_t s = 0; s < ns; ++s)
+    {
+        if (s) { sp += ";"; }
+        for (tensor_size_t i = 0; i < d; ++i) { sp += (i ? "," : "") + sq(p(s, i)); }
+    }
+    std::printf("SGF %s %" PRId64 " %" PRId64 " | %s | %s | %s = %" PRId64 " | %s | %s | %d\n", caseid.c_str(), d, static_cast<int64_t>(ns), sp.c_str(),
+                sqv(y).c_str(), sqv(c).c_str(), static_cast<int64_t>(func.size()), sq(fx).c_str(), func.size() == n ? sqv(gx).c_str() : "",
+                func.convex() ? 1 : 0);
+
+    const std::string id = caseid + " d=" + std::to_string(d) + " p=" + sp + " y=" + sqv(y) + " c=" + sqv(c);
+    if (func.size() != n)
+    {
+        fail("SGF-SIZE", id, "the fit objective over " + std::to_string(d) + " parameters has size " + std::to_string(func.size()));
+        return;
+    }
+    // direct oracle: 0.5 * sum_s (c . phi(p_s) - y_s)^2 with phi by the closed-form index
+    double want = 0.0;
+    for (tensor_size_t s = 0; s < ns; ++s)
+    {
+        double o = c(0);
+        for (int64_t i = 0; i < d; ++i) { o += c(1 + i) * p(s, i); }
+        for (int64_t i = 0; i < d; ++i)
+        {
+            for (int64_t j = i; j < d; ++j) { o += c(cross_index(d, i, j)) * p(s, i) * p(s, j); }
+        }
+        want += 0.5 * (o - y(s)) * (o - y(s));
+    }
+    if (!(fx == want)) { fail("SGF-VALUE", id, "value " + vh::hexf(fx) + " differs from the sum of squared residuals " + vh::hexf(want)); }
+    for (int64_t k = 0; k < n; ++k)
+    {
+        auto cp = c, cm = c;
+        cp(k) += 0.5;
+        cm(k) -= 0.5;
+        const auto diff = func.vgrad(cp) - func.vgrad(cm);
+        if (!(diff == gx(k))) { fail("SGF-GRAD", id, "gradient component " + std::to_string(k) + " = " + vh::hexf(gx(k)) + " but the central difference is " + vh::hexf(diff)); }
+    }
+    // the declared convexity: midpoint inequality between two coefficient vectors (exact arithmetic)
+    const vector_t mid = 0.5 * (c + c2);
+    if (func.convex() && !(func.vgrad(mid) <= 0.5 * (fx + func.vgrad(c2))))
+    {
+        fail("SGF-CONVEX", id, "declared convex but f((a+b)/2) > (f(a)+f(b))/2 for b=" + sqv(c2));
+    }
+}
+
+void run_map(vh::rng_t& rng, const std::string& caseid, surr_stats_t& stats)
+{
+    const bool lg    = rng.range(0, 2) == 0;
+    const auto size  = rng.range(0, 3) == 0 ? rng.range(2, 3) : rng.range(2, 12);
+    bool       exact = false;
+    std::vector<double> grid;
+    if (lg)
+    {
+        // powers of ten (log10 is an integer) or arbitrary positive values
+        const auto pw = rng.range(0, 1) == 0;
+        double     v  = pw ? std::pow(10.0, static_cast<double>(rng.range(-6, 0))) : (0.001 + rng.unit());
+        for (int64_t k = 0; k < size; ++k)
+        {
+            grid.push_back(v);
+            v *= pw ? (rng.range(0, 1) ? 10.0 : 100.0) : (1.25 + 3.0 * rng.unit());
+        }
+    }
+    else
+    {
+        // dyadic values; `exact`: max - min is a power of two, hence (v - min) / (max - min) is exact
+        exact          = rng.range(0, 3) != 0;
+        const auto lo  = dyadic(rng, 40, 0.125);
+        if (exact)
+        {
+            const auto            width = std::ldexp(1.0, static_cast<int>(rng.range(-1, 4)));
+            std::set<int64_t>     inner;
+            while (static_cast<int64_t>(inner.size()) < size - 2) { inner.insert(rng.range(1, 63)); }
+            grid.push_back(lo);
+            for (const auto k : inner) { grid.push_back(lo + width * static_cast<double>(k) / 64.0); }
+            grid.push_back(lo + width);
+        }
+        else
+        {
+            double v = lo;
+            for (int64_t k = 0; k < size; ++k)
+            {
+                grid.push_back(v);
+                v += 0.1 * static_cast<double>(rng.range(1, 30));
+            }
+        }
+    }
+    tensor1d_t values(static_cast<tensor_size_t>(grid.size()));
+    for (size_t k = 0; k < grid.size(); ++k) { values(static_cast<tensor_size_t>(k)) = grid[k]; }
+    const auto space = param_space_t{"p", lg ? param_space_t::type::log10 : param_space_t::type::linear, values};
+
+    std::vector<double> ts, own;
+    for (const auto v : grid)
+    {
+        ts.push_back(space.to_surrogate(v));
+        own.push_back(lg ? std::log10(v) : (v - grid.front()) / (grid.back() - grid.front()));
+    }
+    // the query: an image, the midpoint of two neighbouring images (a tie), just off a midpoint, inside, outside, far outside
+    double     x    = 0.0;
+    const auto k0   = static_cast<size_t>(rng.range(0, static_cast<int64_t>(grid.size()) - 2));
+    const auto mode = rng.range(0, 7);
+    switch (mode)
+    {
+    case 0: x = ts[k0]; break;
+    case 1:
+    case 2: x = 0.5 * (ts[k0] + ts[k0 + 1]); break;
+    case 3: x = 0.5 * (ts[k0] + ts[k0 + 1]) + (rng.range(0, 1) ? 1.0 : -1.0) * std::ldexp(1.0, -static_cast<int>(rng.range(8, 30))); break;
+    case 4: x = ts.front() + (ts.back() - ts.front()) * static_cast<double>(rng.range(0, 256)) / 256.0; break;
+    case 5: x = (rng.range(0, 1) ? ts.back() : ts.front()) + dyadic(rng, 64, 0.125); break;
+    case 6: x = (rng.range(0, 1) ? 1.0 : -1.0) * std::ldexp(1.0, static_cast<int>(rng.range(3, 40))); break;
+    default: x = dyadic(rng, 1024, 1.0 / 1024.0); break;
+    }
+    const auto point  = space.closest_grid_point_from_surrogate(x);
+    const auto cvalue = space.closest_grid_value_from_surrogate(x);
+    const auto from   = space.from_surrogate(x);
+    // to_surrogate of a value inside / outside the range
+    const auto  v = (rng.range(0, 3) == 0) ? (rng.range(0, 1) ? grid.back() + 0.125 : grid.front() - 0.125) : grid[k0] + (grid[k0 + 1] - grid[k0]) * 0.5;
+    std::string sto;
+    try
+    {
+        sto = sq(space.to_surrogate(v));
+    }
+    catch (const std::exception&)
+    {
+        sto = "throw";
+    }
+    ++stats.m_map;
+    if (lg) { ++stats.m_map_log; }
+
+    std::printf("MAP %s %s %d | %s | %s | %s | %s = %" PRId64 " | %s | %s | %s\n", caseid.c_str(), lg ? "log" : "lin", exact ? 1 : 0, sqv(grid).c_str(),
+                sqv(ts).c_str(), sq(x).c_str(), sq(v).c_str(), static_cast<int64_t>(point), sq(cvalue).c_str(), sq(from).c_str(), sto.c_str());
+
+    // direct oracle (own images, own distances): in range, a closest grid value, the first among equally close ones
+    const std::string id = caseid + (lg ? " log10" : " linear") + " grid=" + sqv(grid) + " x=" + vh::hexf(x);
+    if (point < 0 || point >= static_cast<tensor_size_t>(grid.size()))
+    {
+        fail("MAP-RANGE", id, "closest_grid_point_from_surrogate returned " + std::to_string(point));
+        return;
+    }
+    const auto dp   = std::fabs(x - own[static_cast<size_t>(point)]);
+    int64_t    ties = 0;
+    for (size_t k = 0; k < grid.size(); ++k)
+    {
+        const auto dk = std::fabs(x - own[k]);
+        if (dk < dp) { fail("MAP-ARGMIN", id, "returned point " + std::to_string(point) + " but grid point " + std::to_string(k) + " is closer in the surrogate space"); }
+        if (dk == dp && static_cast<tensor_size_t>(k) < point) { fail("MAP-ARGMIN", id, "returned point " + std::to_string(point) + " but the earlier grid point " + std::to_string(k) + " is equally close"); }
+        if (dk == dp && static_cast<tensor_size_t>(k) != point) { ++ties; }
+    }
+    if (ties > 0) { ++stats.m_map_ties; }
+    if (!(cvalue == grid[static_cast<size_t>(point)])) { fail("MAP-VALUE", id, "closest_grid_value_from_surrogate is not the grid value at the closest point"); }
+    if (!(from >= grid.front() && from <= grid.back())) { fail("MAP-FROM", id, "from_surrogate left the range of the grid: " + vh::hexf(from)); }
+    const bool inside = v >= grid.front() && v <= grid.back();
+    if (inside == (sto == "throw")) { fail("MAP-TO", id, "to_surrogate(" + vh::hexf(v) + ") = " + sto); }
+}
+
 // ------------------------------------------------------------------------------------------------
 // tuner_t::optimize
 // ------------------------------------------------------------------------------------------------
@@ -395,7 +740,7 @@ struct opt_stats_t
     int64_t m_runs{0}, m_evals{0}, m_ties{0}, m_nonfinite{0}, m_abort{0}, m_bound_hit{0}, m_maxevals_reached{0}, m_min_slack{1000000};
 };
 
-void run_opt(vh::rng_t& rng, const std::string& caseid, const bool surrogate, const bool thorough, opt_stats_t& stats)
+void run_opt(vh::rng_t& rng, const std::string& caseid, const bool surrogate, const bool thorough, opt_stats_t& stats, surr_stats_t& sstats)
 {
     const auto dims = static_cast<int>(rng.range(1, 3));
     const auto grids = make_grids(rng, dims, surrogate ? 2000 : 40000);
@@ -457,6 +802,15 @@ void run_opt(vh::rng_t& rng, const std::string& caseid, const bool surrogate, co
     tuner_steps_t steps;
     std::string   outcome = "ok";
     std::string   what;
+    if (surrogate)
+    {
+        // stage SURR: record the answers of the inner solver (solver_t::done exit events of the NANO_VERIF build)
+        g_rec             = recorder_t{};
+        g_rec.m_on        = true;
+        g_rec.m_dims      = static_cast<tensor_size_t>(d);
+        g_rec.m_evaluated = &evaluated;
+        verif::g_event_hook.store(&on_solver_event);
+    }
     try
     {
         steps = tuner->optimize(spaces, callback, make_null_logger());
@@ -470,6 +824,12 @@ void run_opt(vh::rng_t& rng, const std::string& caseid, const bool surrogate, co
     {
         what    = e.what();
         outcome = "abort";
+    }
+    if (surrogate)
+    {
+        verif::g_event_hook.store(nullptr);
+        g_rec.flush();
+        g_rec.m_on = false;
     }
 
     // ---- the property's oracle on the implementation ----
@@ -521,6 +881,93 @@ void run_opt(vh::rng_t& rng, const std::string& caseid, const bool surrogate, co
         if (!steps.empty() && !(steps[0].m_value == minv)) { fail("MINFIRST", id, "first step is not the minimum observed"); }
     }
 
+    // ---- stage SURR: every surrogate batch lies in the radius-1 neighbourhood of the grid point closest to the recorded answer
+    //      (own images, own argmin: independent of the model and of closest_grid_point_from_surrogate)
+    std::string stss, sans;
+    if (surrogate && grid_ok)
+    {
+        for (size_t i = 0; i < d; ++i)
+        {
+            if (i) { stss += ";"; }
+            std::vector<double> ts;
+            for (const auto v : grids.m_values[i]) { ts.push_back(spaces[i].to_surrogate(v)); }
+            stss += sqv(ts);
+        }
+        // evaluations before each batch
+        std::vector<int64_t> before;
+        {
+            int64_t acc = 0;
+            for (const auto& b : batches)
+            {
+                before.push_back(acc);
+                acc += static_cast<int64_t>(b.size());
+            }
+        }
+        for (size_t a = 0; a < g_rec.m_answers.size(); ++a)
+        {
+            const auto& ans = g_rec.m_answers[a];
+            if (a) { sans += ";"; }
+            sans += std::to_string(ans.m_evals) + ":" + (ans.m_valid ? "1" : "0") + ":";
+            for (size_t i = 0; i < ans.m_x.size(); ++i) { sans += (i ? "," : "") + (std::isfinite(ans.m_x[i]) ? sq(ans.m_x[i]) : std::string("nf")); }
+            ++sstats.m_answers;
+            if (!ans.m_valid)
+            {
+                ++sstats.m_invalid_answers;
+                if (outcome != "abort") { fail("SURR-INVALID", id, "the inner solver returned an invalid state but optimize ended with `" + outcome + "`"); }
+                continue;
+            }
+            if (ans.m_x.size() != d)
+            {
+                fail("SURR-PROPOSAL", id, "the inner solver's answer has " + std::to_string(ans.m_x.size()) + " components");
+                continue;
+            }
+            igr  c(d);
+            bool unique = true; // the closest point is unique up to rounding (else the oracle accepts either)
+            for (size_t i = 0; i < d; ++i)
+            {
+                double best = HUGE_VAL;
+                for (size_t k = 0; k < grids.m_values[i].size(); ++k)
+                {
+                    const auto v  = grids.m_values[i][k];
+                    const auto t  = grids.m_log[i] ? std::log10(v) : (v - grids.m_values[i].front()) / (grids.m_values[i].back() - grids.m_values[i].front());
+                    const auto dk = std::fabs(ans.m_x[i] - t);
+                    if (dk < best)
+                    {
+                        if (best - dk <= 1e-12 * (1.0 + std::fabs(ans.m_x[i]))) { unique = false; }
+                        best = dk;
+                        c[i] = static_cast<int64_t>(k);
+                    }
+                    else if (dk - best <= 1e-12 * (1.0 + std::fabs(ans.m_x[i]))) { unique = false; }
+                }
+            }
+            if (!unique) { continue; }
+            // the batch evaluated after this answer (if any): all its points within +-1 of c, and c itself unless already evaluated
+            for (size_t k = 0; k < batches.size(); ++k)
+            {
+                if (before[k] != ans.m_evals || k == 0) { continue; }
+                bool has_c = false;
+                for (const auto& [g, v] : batches[k])
+                {
+                    for (size_t i = 0; i < d; ++i)
+                    {
+                        if (std::llabs(g[i] - c[i]) > 1)
+                        {
+                            fail("SURR-PROPOSAL", id, "batch " + std::to_string(k) + " evaluates " + sg(g) + " which is not a neighbour of the grid point " + sg(c) +
+                                                          " closest to the inner solver's answer");
+                        }
+                    }
+                    has_c = has_c || g == c;
+                }
+                bool c_before = false;
+                for (size_t kk = 0; kk < k; ++kk)
+                {
+                    for (const auto& [g, v] : batches[kk]) { c_before = c_before || g == c; }
+                }
+                if (!has_c && !c_before) { fail("SURR-PROPOSAL", id, "the proposed grid point " + sg(c) + " was not evaluated in batch " + std::to_string(k)); }
+            }
+        }
+    }
+
     // ---- the line for the model ----
     if (grid_ok)
     {
@@ -540,8 +987,16 @@ void run_opt(vh::rng_t& rng, const std::string& caseid, const bool surrogate, co
             if (k) { ss += " "; }
             ss += sg(steps[k].m_igrid) + ":" + skey(steps[k].m_value);
         }
-        std::printf("OPT %s %s %" PRId64 " %s | %s | %s | %s\n", caseid.c_str(), surrogate ? "S" : "L", max_evals, grids.sizes().c_str(),
-                    sb.c_str(), outcome.c_str(), ss.c_str());
+        if (surrogate)
+        {
+            std::printf("OPT %s %s %" PRId64 " %s | %s | %s | %s | %s | %s\n", caseid.c_str(), "S", max_evals, grids.sizes().c_str(),
+                        sb.c_str(), outcome.c_str(), ss.c_str(), stss.c_str(), sans.c_str());
+        }
+        else
+        {
+            std::printf("OPT %s %s %" PRId64 " %s | %s | %s | %s\n", caseid.c_str(), "L", max_evals, grids.sizes().c_str(),
+                        sb.c_str(), outcome.c_str(), ss.c_str());
+        }
     }
 
     // ---- statistics of what was explored ----
@@ -1051,9 +1506,15 @@ int main(int argc, char** argv)
         }
     };
     each(n_ls, [&](vh::rng_t& rng, const std::string& id) { run_ls(rng, id); });
-    each(n_local, [&](vh::rng_t& rng, const std::string& id) { run_opt(rng, id, false, thorough, ostats); });
-    each(n_surr, [&](vh::rng_t& rng, const std::string& id) { run_opt(rng, id, true, thorough, ostats); });
+    surr_stats_t sstats;
+    each(n_local, [&](vh::rng_t& rng, const std::string& id) { run_opt(rng, id, false, thorough, ostats, sstats); });
+    each(n_surr, [&](vh::rng_t& rng, const std::string& id) { run_opt(rng, id, true, thorough, ostats, sstats); });
     each(n_tune, [&](vh::rng_t& rng, const std::string& id) { run_tune(rng, id, tstats); });
+    // stage SURR (appended: the case indices of the earlier stages are unchanged)
+    each(thorough ? 40000 : 4000, [&](vh::rng_t& rng, const std::string& id) { run_sgv(rng, id, sstats); });
+    each(thorough ? 20000 : 2000, [&](vh::rng_t& rng, const std::string& id) { run_sgf(rng, id, sstats); });
+    each(thorough ? 100000 : 12000, [&](vh::rng_t& rng, const std::string& id) { run_map(rng, id, sstats); });
+    each(thorough ? 4000 : 400, [&](vh::rng_t& rng, const std::string& id) { run_opt(rng, id, true, thorough, ostats, sstats); });
 
     if (tdir != nullptr)
     {
@@ -1062,8 +1523,10 @@ int main(int argc, char** argv)
     }
     std::printf("DONE fails=%d opt_runs=%" PRId64 " opt_evals=%" PRId64 " opt_with_ties=%" PRId64 " opt_nonfinite=%" PRId64 " opt_abort=%" PRId64
                 " opt_over_max_evals=%" PRId64 " opt_reached_max_evals=%" PRId64 " opt_min_slack_to_bound=%" PRId64 " tune_runs=%" PRId64 " tune_calls=%" PRId64 " tune_trials=%" PRId64
-                " tune_optimum_ties=%" PRId64 " tune_throws=%" PRId64 "\n",
+                " tune_optimum_ties=%" PRId64 " tune_throws=%" PRId64 " sgv=%" PRId64 " sgf=%" PRId64 " map=%" PRId64 " map_exact_ties=%" PRId64 " map_log=%" PRId64
+                " surr_answers=%" PRId64 " surr_invalid_answers=%" PRId64 "\n",
                 g_fail, ostats.m_runs, ostats.m_evals, ostats.m_ties, ostats.m_nonfinite, ostats.m_abort, ostats.m_bound_hit, ostats.m_maxevals_reached, ostats.m_min_slack,
-                tstats.m_runs, tstats.m_calls, tstats.m_trials, tstats.m_optimum_ties, tstats.m_throws);
+                tstats.m_runs, tstats.m_calls, tstats.m_trials, tstats.m_optimum_ties, tstats.m_throws, sstats.m_sgv, sstats.m_sgf, sstats.m_map, sstats.m_map_ties,
+                sstats.m_map_log, sstats.m_answers, sstats.m_invalid_answers);
     return 0;
 }
